@@ -37,7 +37,8 @@ RULE = ('cases: (aranges) Coq-encoded tables of 0..6 sets, address size 4/8 mixe
         '(units) 1..6 synthesized units (v2-v5, 32/64-bit, all six v5 unit types) queried at EVERY offset 0..size-1 in random order '
         'interleaved with get_CU_at at unit starts and get_DIE_from_lut_entry, plus all histories up to length 3 over six probes on a '
         'fixed 3-unit section, each followed by the full sweep; one (thorough: four) section of 1500..3000 equal minimal units queried cold '
-        'at a high offset and the last byte, then downwards (walk depth).  distinct = hash(kind, abstract); non-trivial = at least one '
+        'at a high offset and the last byte, then downwards (walk depth); one (thorough: three) SPARSE real file with a unit starting at '
+        'an offset >= 2**32 behind a stretched 64-bit-format unit, answers compared with the same two units placed low (metamorphic).  distinct = hash(kind, abstract); non-trivial = at least one '
         'tuple/name/two units, or an empty-table / error case')
 
 K_EMPTY = 'cu_offset_at_addr-empty-table-IndexError'
@@ -470,6 +471,18 @@ def gen(ctx):
                 ops.append(['die', k * U, k * U + hdr])
         ops += [['containing', 0], ['containing', size - 1], ['containing', size], ['containing', rng.randrange(size)]]
         cases.append(('units_many', [rng.random() < 0.7, u, n, ops]))
+    # magnitude: a unit that starts at an offset >= 2**32.  The byte-list model cannot hold such a section; the check is
+    # metamorphic: a 64-bit-format unit A followed by a unit B, once with A's one-byte DIE area (model and spec), once in a
+    # SPARSE real file in which A's unit_length is stretched so that B starts at H >= 2**32: every answer about B must be
+    # the low answer shifted by the stretch, every answer about A the low answer with the stretched unit_length
+    for i in range(ctx.scale(1, 3)):
+        A = _gen_unit(rng, force=(True, rng.choice([3, 4, 5]), 0))
+        if A[1] >= 5:
+            A[2] = rng.choice([1, 3])
+        A[7] = bytes([rng.choice([1, 2, 3])])
+        B = _gen_unit(rng)
+        H = 2 ** 32 + rng.choice([0, 0, 1, 5, rng.randrange(1, 2 ** 20)])
+        cases.append(('units_sparse', [rng.random() < 0.7, A, B, H, rng.choice(['at_first', 'containing_first', 'low_first']), 'file']))
     # failed lookups between valid ones (the answers of the valid ones must not change)
     for i in range(50 * T):
         cases.append(('units_history', _failing_history(rng, rng.random() < 0.7)))
@@ -528,6 +541,8 @@ def _dwarfinfo(le, addr_size, skind, **secs):
         data = secs.get(name)
         if data is None:
             return None
+        if isinstance(data, tuple):                      # (open stream, section size): a sparse file
+            return DebugSectionDescriptor(stream=data[0], name='.' + name, global_offset=0, size=data[1], address=0)
         return DebugSectionDescriptor(stream=_S.open(data, skind), name='.' + name, global_offset=0, size=len(data), address=0)
     names = ['debug_info', 'debug_aranges', 'debug_abbrev', 'debug_frame', 'eh_frame', 'debug_str', 'debug_loc', 'debug_ranges',
              'debug_line', 'debug_pubtypes', 'debug_pubnames', 'debug_addr', 'debug_str_offsets', 'debug_line_str',
@@ -617,6 +632,22 @@ def _impl_history(le, info, ops, addr_size, skind):
     return out
 
 
+def _sparse_history(le, low, sA, H, ops, addr_size):
+    """the two units of `low` (A = low[:sA] in the 64-bit format, B = low[sA:]) in a sparse real file: A's unit_length is
+    stretched so that B starts at H; the file holds two small extents, the hole in between reads as zeros"""
+    assert low[:4] == b'\xff\xff\xff\xff'
+    path = _S.path_of(b'')
+    with open(path, 'r+b') as f:
+        f.write(low[:4] + (H - 12).to_bytes(8, 'little' if le else 'big') + low[12:sA])
+        f.seek(H)
+        f.write(low[sA:])
+    st = open(path, 'rb')
+    try:
+        return _impl_history(le, (st, H + len(low) - sA), ops, addr_size, 'file')
+    finally:
+        st.close()
+
+
 # --------------------------------------------------------------------------------------------- evaluate
 def evaluate(ctx, cases):
     from tools.lib.streams import Streams
@@ -646,6 +677,8 @@ def _evaluate(ctx, full, S):
                      ['wf_names', a[2] if kind == 'names_table' else a[1]], ['wf_names', []]]
         elif kind == 'units_history':
             reqs += [['enc_units', a[0], a[1]], ['wf_units', a[1]], ['units_spec', a[1]]]
+        elif kind == 'units_sparse':
+            reqs += [['enc_units', a[0], [a[1], a[2]]], ['wf_units', [a[1], a[2]]], ['units_spec', [a[1], a[2]]]]
         elif kind == 'units_many':        # n copies of one unit; the starts are multiples of its size
             reqs += [['enc_units', a[0], [a[1]] * a[2]], ['wf_units', [a[1]]], ['units_spec', [a[1]]]]
         else:
@@ -677,6 +710,14 @@ def _evaluate(ctx, full, S):
             w['invalid'] = [j for j, op in enumerate(a[2]) if op[0] != 'containing' and op[1] not in st_]
             reqs2 += [['di_run', a[0], data, len(data), a[2]], ['di_spec', a[0], a[1], a[2]],
                       ['di_fresh', a[0], data, len(data), [a[2][j] for j in w['invalid']]]]
+        elif kind == 'units_sparse':
+            sA = third[1][0]
+            lenB, hdrB = _unit_size(a[2])
+            low_ops = [['containing', r] for r in range(sA, sA + lenB)] + [['at', sA], ['die', sA, sA + hdrB], ['at', 0],
+                       ['containing', 0], ['containing', sA - 1], ['containing', sA + lenB]]
+            low_ops = {'at_first': [['at', sA]], 'containing_first': [['containing', sA + 1]], 'low_first': [['containing', 0]]}[a[4]] + low_ops
+            w['sA'], w['low_ops'] = sA, low_ops
+            reqs2 += [['di_run', a[0], data, len(data), low_ops], ['di_spec', a[0], [a[1], a[2]], low_ops], NOP]
         elif kind == 'units_many':
             U = _unit_size(a[1])[0]
             assert len(data) == a[2] * U
@@ -757,6 +798,30 @@ def _evaluate(ctx, full, S):
         elif kind == 'names_trunc':
             impl = _impl_names(a[0], 'pubnames', data, [], addr_size, sk)
             ctx.record(kind, afull, impl=impl, spec=model, model=model, in_domain=False, nontrivial=True)
+        elif kind == 'units_sparse':
+            sA, H, low_ops = w['sA'], a[3], w['low_ops']
+            shift = H - sA
+            def up(x):                       # an offset of the low placement in the high placement
+                return x if x < sA - 1 else H - 1 if x == sA - 1 else x + shift
+            def lift(ans):                   # an answer about the low placement -> the answer about the high placement
+                if ans[:1] != ['ok']:
+                    return ans
+                o = list(ans[1])
+                if len(o) == 3:              # a DIE: (offset, code, size)
+                    return ['ok', [up(o[0]), o[1], o[2]]]
+                if o[0] == 0:                # unit A: only its unit_length is stretched
+                    return ['ok', [0, H - 12] + o[2:]]
+                return ['ok', [o[0] + shift] + o[1:-1] + [o[-1] + shift]]
+            high_ops = [[op[0]] + [up(x) for x in op[1:]] for op in low_ops]
+            impl = _sparse_history(a[0], data, sA, H, high_ops, addr_size)
+            spec_high = [lift(x) for x in spec]
+            for j, (x, y) in enumerate(zip(impl, spec_high)):
+                if x != y:
+                    key = 'units:' + low_ops[j][0] + ':offset>=2**32'
+                    break
+            ctx.bump('units', 'sparse, unit at >= 2**32')
+            ctx.record(kind, afull, impl=impl, spec=spec_high, model=[lift(x) for x in model], in_domain=w['wf'],
+                       nontrivial=True, key=key)
         elif kind in ('units_history', 'units_many'):
             ops = a[2] if kind == 'units_history' else a[3]
             nunits = len(a[1]) if kind == 'units_history' else a[2]
